@@ -369,8 +369,23 @@ def materialise(scn, wd):
             os.utime(os.path.join(wd, f.path), (f.mtime, f.mtime))
 
 
-def execute(scn, plan, keep=False, wall_cap=30.0, binary=None, want_trace=True):
-    """Run one simulated execution. Returns Result. The run directory is removed unless keep."""
+def execute(scn, plan, keep=False, wall_cap=30.0, binary=None, want_trace=True, retry=True):
+    """Run one simulated execution. Returns Result. The run directory is removed unless keep.
+
+    A run that hits the wall-clock cap is re-run once *in isolation* (one such re-run at a time across all
+    workers, generous cap) before the timeout may count: machine load must not raise an alarm. Scheduler-level
+    DEADLOCK / LIVELOCK verdicts are deterministic and need no re-run."""
+    res = _execute_once(scn, plan, keep, wall_cap, binary, want_trace)
+    if res.timed_out and retry:
+        import fcntl
+        os.makedirs(scratch_root(), exist_ok=True)
+        with open(os.path.join(scratch_root(), ".retry.lock"), "w") as lk:
+            fcntl.flock(lk, fcntl.LOCK_EX)
+            res = _execute_once(scn, plan, keep, max(60.0, 3 * wall_cap), binary, want_trace)
+    return res
+
+
+def _execute_once(scn, plan, keep, wall_cap, binary, want_trace):
     _RUN_COUNTER[0] += 1
     wd = os.path.join(scratch_root(), "p%d" % os.getpid(), "r%d" % _RUN_COUNTER[0])
     if os.path.exists(wd):
